@@ -53,6 +53,12 @@ class AbstractContainer(abstract.GeomdlBase):
         self._vis_component = None  # visualization component
         self._cache['evalpts'] = []
 
+    def __deepcopy__(self, memo):
+        # The cache is not copied; re-create the entries that the container methods rely on
+        result = super(AbstractContainer, self).__deepcopy__(memo)
+        result._cache['evalpts'] = []
+        return result
+
     def __iter__(self):
         self._iter_index = 0
         return self
@@ -495,6 +501,12 @@ class SurfaceContainer(AbstractContainer):
         self._cache['faces'] = []
         for arg in args:
             self.add(arg)
+
+    def __deepcopy__(self, memo):
+        result = super(SurfaceContainer, self).__deepcopy__(memo)
+        result._cache['vertices'] = []
+        result._cache['faces'] = []
+        return result
 
     @property
     def delta_u(self):
